@@ -193,7 +193,7 @@ class ModuleGen(object):
         n = rng.randint(2, 7)
         for k in range(n):
             kind = rng.choice(['func', 'afunc', 'deco', 'class', 'class', 'if', 'try', 'main', 'with', 'adeco', 'ctxmgr', 'notmain', 'handler', 'matcharm', 'tryelse',
-                              'forbody'])
+                              'forbody', 'subclass'])
             self.spec.features.add('top:' + kind)
             if kind == 'func':
                 self.func('', 'f%d' % k, 'f%d' % k, True)
@@ -231,6 +231,17 @@ class ModuleGen(object):
                 if out[-1] == '':
                     out.pop()
                 out += ['    break', '']
+            elif kind == 'subclass':
+                # a class that inherits documented methods: they belong to the base, only its own members to the subclass
+                out.append('class B%d:' % k)
+                self.doc('    ', collect_as='B%d' % k)
+                self.func('    ', 'inherited', 'B%d.inherited' % k, True, nested=False)
+                self.func('    ', 'shared', 'B%d.shared' % k, True, deco='@staticmethod', nested=False)
+                out.append('class S%d(B%d):' % (k, k))
+                self.doc('    ', collect_as='S%d' % k)
+                self.func('    ', 'own', 'S%d.own' % k, True, nested=False)
+                out.append('    alias = B%d.inherited' % k if False else '    attr2 = 2')
+                out.append('')
             elif kind == 'notmain':
                 # not the main guard: the block runs on import, its definitions are collected
                 out.append('if %s:' % rng.choice(["__name__ != '__main__'", "'__main__' != __name__", "__name__ is not None",
